@@ -62,6 +62,7 @@ type System struct {
 	scheduler         *scheduler.Scheduler                              // 调度器
 	status            int32                                             // 系统状态
 	statusLock        sync.Mutex                                        // 系统状态锁
+	lifecycleLock     sync.Mutex                                        // 使启动流程与停止流程的实际工作互斥（不保护 status）
 	clusterContext    *cluster.Context                                  // 集群上下文
 	cancel            context.CancelFunc                                // 上下文停止函数
 }
@@ -121,6 +122,11 @@ func (s *System) Start() error {
 			return vivid.ErrorActorSystemAlreadyStopped
 		default:
 			s.status = start
+			// 启动流程与停止流程互斥：状态切换为 start 后，并发的 Stop 会通过状态校验，
+			// 若此时根 Actor 等尚未创建完成，Stop 将在什么都没有停止的情况下返回成功，而启动流程仍会继续创建 Actor。
+			// 因此在切换状态的同一临界区内取得 lifecycleLock（此时必然空闲：ready 状态下的 Stop 不会获取它），
+			// 使 Stop 的实际停止工作等待启动流程结束后再执行；状态校验本身不受影响，重复调用仍会立即返回。
+			s.lifecycleLock.Lock()
 			return nil
 		}
 	}(s)
@@ -138,6 +144,7 @@ func (s *System) Start() error {
 		Run()
 
 	if startErr != nil {
+		s.lifecycleLock.Unlock() // Stop 内部会获取该锁，此处不可再持有（sync.Mutex 不可重入）
 		s.Logger().Error("actor system start failed", log.Any("err", startErr))
 		return vivid.ErrorActorSystemStartFailed.With(s.Stop(s.options.StopTimeout))
 	}
@@ -149,6 +156,7 @@ func (s *System) Start() error {
 		<-s.options.Context.Done()
 		_ = s.stop(false) // 无意义错误；状态锁由 stop 内部获取，此处不可再持有（sync.Mutex 不可重入）
 	}()
+	s.lifecycleLock.Unlock()
 	return nil
 }
 func (s *System) Stop(timeout ...time.Duration) error {
@@ -179,6 +187,10 @@ func (s *System) stop(checkLog bool, timeout ...time.Duration) error {
 	if stateError != nil {
 		return stateError
 	}
+
+	// 等待进行中的启动流程结束（见 Start），此后根 Actor、远程与集群等均已就绪或确定不存在
+	s.lifecycleLock.Lock()
+	defer s.lifecycleLock.Unlock()
 
 	// 优先离开集群（未启用集群时 clusterContext 为 nil）
 	if s.clusterContext != nil {
